@@ -7,7 +7,7 @@ LANG_VOCAB = (["RUN", "WITH", "DO", "LOOP", "WHILE", "GOTO", "IF", "THEN", "STOP
               + ["0", "1", "3", "2147483646", "2147483647", "2147483648", "100000000000000000000"])
 
 MACRO_VOCAB = ["DEFINE", "AS", "END DEFINE", "ENDDEF", "PRIO", "PRIORITY", "<P>", "<V>", "<ID>", "<INT>", "<ARGS>", "$0", "$1",
-               "$7", "$99999999999", "#0", "#1", "#12", "include", "\"lib\"", "\"nofile\"", "*", "@", "!", "FOO", "ELSE", "FI",
+               "$7", "$99999999999", "$4294967296", "$4294967297", "$8589934592", "#0", "#1", "#12", "include", "\"lib\"", "\"nofile\"", "*", "@", "!", "FOO", "ELSE", "FI",
                "IFZ", "REPEAT", "TIMES", "DONE", "SWAP", "NOP", "4294967296", "18446744073709551616", "__INC__", "__DEC__"]
 
 FULL_VOCAB = LANG_VOCAB + MACRO_VOCAB
